@@ -31,6 +31,12 @@ pub broadcast axiom fn ax_fmt_req_all_cow_str<'a>()
 pub uninterp spec fn atomic_id(a: &std::sync::atomic::AtomicU8) -> int;
 pub uninterp spec fn store_ok(id: int, v: u8) -> bool;
 pub uninterp spec fn load_spec(id: int) -> u8;
+/// the value an atomic was created with (R11: `AtomicU8::new(v)` becomes `vatomic_new(v)`)
+pub uninterp spec fn atomic_init(id: int) -> u8;
+#[verifier::external_body]
+pub fn vatomic_new(v: u8) -> (r: std::sync::atomic::AtomicU8)
+    ensures atomic_init(atomic_id(&r)) == v,
+{ unimplemented!() }
 pub trait VAtomicU8 {
     spec fn aid(&self) -> int;
     fn vstore(&self, v: u8, o: std::sync::atomic::Ordering)
@@ -192,6 +198,18 @@ pub mod multi_writer {
         }
         pub closed spec fn err_id(&self) -> int { atomic_id(&self.duplicate_stderr) }
         pub closed spec fn out_id(&self) -> int { atomic_id(&self.duplicate_stdout) }
+        pub closed spec fn fmt_err(&self) -> VFormatFn { self.format_for_stderr }
+        pub closed spec fn fmt_out(&self) -> VFormatFn { self.format_for_stdout }
+        pub closed spec fn capture(&self) -> bool { self.support_capture }
+        pub closed spec fn file_writer(&self) -> Option<Box<FileLogWriter>> { self.o_file_writer }
+        pub closed spec fn other_writer(&self) -> Option<Box<dyn LogWriter>> { self.o_other_writer }
+    //@ fn src/primary_writer/multi_writer.rs impl MultiWriter / fn new
+    //@   ret r
+    //@   props C20,C13
+    //@   rule R11 2
+    //@   ens[MultiWriter::new.post.formats] r.fmt_err() == format_for_stderr && r.fmt_out() == format_for_stdout
+    //@   ens[MultiWriter::new.post.duplication] atomic_init(r.err_id()) == MultiWriter::dup_code(duplicate_stderr) && atomic_init(r.out_id()) == MultiWriter::dup_code(duplicate_stdout)
+    //@   ens[MultiWriter::new.post.writers] r.capture() == support_capture && r.file_writer() == o_file_writer && r.other_writer() == o_other_writer
     //@ fn src/primary_writer/multi_writer.rs impl MultiWriter / fn adapt_duplication_to_stderr
     //@   props C13
     //@   rule R11 1
